@@ -256,15 +256,39 @@ def _alarm(signum, frame):
     raise Timeout()
 
 
-def with_watchdog(fn, seconds=5):
-    """Run fn(); Timeout is raised inside it if it does not terminate."""
-    old = signal.signal(signal.SIGALRM, _alarm)
-    signal.setitimer(signal.ITIMER_REAL, seconds)
+WALL_FACTOR = 20
+
+
+def with_watchdog(fn, seconds=5, wall_factor=None):
+    """Run fn(); Timeout is raised inside it if it does not terminate.
+
+    The limit is counted in *processor time* of this process (other jobs on the machine must not turn a case that
+    needs a second into one that 'does not terminate'); a wall-clock limit `wall_factor` times as long backs it up
+    for code that waits without computing (a blocked lock, a sleep, a child process).  Calls may be nested: the
+    timers of the enclosing call are put back afterwards."""
+    factor = WALL_FACTOR if wall_factor is None else wall_factor
+    old_p = signal.signal(signal.SIGPROF, _alarm)
+    prev_p = signal.setitimer(signal.ITIMER_PROF, seconds)
+    old_a = signal.signal(signal.SIGALRM, _alarm)
+    prev_a = signal.setitimer(signal.ITIMER_REAL, seconds * factor)
     try:
         return fn()
     finally:
-        signal.setitimer(signal.ITIMER_REAL, 0)
-        signal.signal(signal.SIGALRM, old)
+        signal.setitimer(signal.ITIMER_PROF, prev_p[0], prev_p[1])
+        signal.signal(signal.SIGPROF, old_p)
+        signal.setitimer(signal.ITIMER_REAL, prev_a[0], prev_a[1])
+        signal.signal(signal.SIGALRM, old_a)
+
+
+def with_cpu_watchdog(fn, seconds=5):
+    """Like with_watchdog, processor time only (the wall-clock backstop of an enclosing with_watchdog stays armed)."""
+    old_p = signal.signal(signal.SIGPROF, _alarm)
+    prev_p = signal.setitimer(signal.ITIMER_PROF, seconds)
+    try:
+        return fn()
+    finally:
+        signal.setitimer(signal.ITIMER_PROF, prev_p[0], prev_p[1])
+        signal.signal(signal.SIGPROF, old_p)
 
 
 # --------------------------------------------------------------------------- exception labels
